@@ -700,3 +700,97 @@ def run_c14_unitname(c, ctx):
             break
     return outcome(classes=classes, nontrivial=True, fp='e14u ' + ''.join(texts), dev=devs, monitors={'edge_programs': 1, 'custom_unit_name_parses': len(texts)},
                    sample=dict(texts=texts))
+
+
+# ------------------------------------------------------------------------------------------------ C13, a path written twice, the second time as none
+# "the declared type": a numeric node declared with a width / sign of its own (uint64, int16, float32, float128) that appears a
+# second time under the same path with the literal none is ONE parameter of that path, value none, with the width and sign of
+# the definition in its data-type object (which is what the exporters read).
+
+def gen_c13_renone(rng):
+    dt = rng.choice(['uint64', 'int16', 'int64', 'uint16', 'float32', 'float128', 'int', 'float', 'uint32'])
+    return dict(edge='c13-renone', dt=dt, unit=rng.choice([None, 'cm', 's']), grouped=rng.random() < 0.6, typed=rng.random() < 0.4, array=rng.random() < 0.25,
+                again=rng.choice(['none', 'none', 'value']), v=rng.randint(1, 99))
+
+
+def run_c13_renone(c, ctx):
+    from scinumtools.dip.settings import Format
+    dt, u = c['dt'], (' ' + c['unit']) if c['unit'] else ''
+    isint = 'int' in dt
+    lit = ('[%d,%d]' % (c['v'], c['v'] + 1)) if c['array'] else (str(c['v']) if isint else repr(c['v'] + 0.5))
+    lit2 = 'none' if c['again'] == 'none' else (('[%d,%d]' % (c['v'] + 2, c['v'] + 3)) if c['array'] else (str(c['v'] + 2) if isint else repr(c['v'] + 2.5)))
+    dim = '[2]' if c['array'] else ''
+    name = 'grid.cells' if c['grouped'] else 'cells'
+    L = (['grid', '  cells %s%s = %s%s' % (dt, dim, lit, u)] if c['grouped'] else ['cells %s%s = %s%s' % (dt, dim, lit, u)])
+    L.append('%s %s= %s' % (name, (dt + dim + ' ') if c['typed'] else '', lit2))
+    text = '\n'.join(L) + '\n'
+    uns = dt.startswith('u')
+    bits = ''.join(ch for ch in dt if ch.isdigit())
+    width = int(bits) if bits else (32 if isint else 64)
+    classes = ['edge:path-written-twice', 'edge:path-written-twice:' + c['again'], 'edge:path-written-twice:width-%d%s' % (width, '-unsigned' if uns else '')]
+    devs = []
+    st, res, keep = parse(ctx, text, 'e13n')
+    if st != 'ok':
+        devs.append(dev('path-written-twice:valid-text-rejected', dict(text=text, exc=repr(res)[:200])))
+    else:
+        d = res.data(Format.TYPE)
+        o = d.get(name)
+        got = None if o is None else dict(kind=type(o).__name__, value=repr(o.value), width=getattr(o, 'precision', None), unsigned=bool(getattr(o, 'unsigned', False)), unit=o.unit)
+        want_none = c['again'] == 'none'
+        bad = (sorted(d) != [name] or o is None or ('Integer' in type(o).__name__) != isint or got['width'] != width or (isint and got['unsigned'] != uns)
+               or got['unit'] != c['unit'] or (want_none and o.value is not None) or (not want_none and o.value is None))
+        if bad:
+            devs.append(dev('path-written-twice:parameter-does-not-keep-the-declared-width-sign-or-unit', dict(text=text, observed=got, keys=sorted(d),
+                                                                                                         expected=dict(width=width, unsigned=uns, unit=c['unit'], value='none' if want_none else lit2))))
+    return outcome(classes=classes, nontrivial=True, fp='e13n ' + text, dev=devs, monitors={'edge_programs': 1}, sample=dict(text=text))
+
+
+# ------------------------------------------------------------------------------------------------ C16, constraints written in offset / logarithmic units
+# "compared after conversion to the node's unit": a bound or an option written in K for a node in Cel (degF, dBm / W ...) is
+# converted by the unit's formula, not by a factor.
+
+def gen_c16_offset(rng):
+    return dict(edge='c16-offset', nu=rng.choice(['Cel', 'K', 'degF']), bu=rng.choice(['Cel', 'K', 'degF']), tk=rng.choice([293.15, 250.0, 310.0, 373.15, 77.0]),
+                delta=rng.choice([5.0, -5.0, 40.0, -40.0]), op=rng.choice(['>', '<']), form=rng.choice(['condition', 'condition-range', 'option-float', 'option-int', 'level-condition']),
+                modified=rng.random() < 0.3)
+
+
+def run_c16_offset(c, ctx):
+    fromK = {'K': lambda t: t, 'Cel': lambda t: t - 273.15, 'degF': lambda t: t * 9 / 5 - 459.67}
+    nu, bu = c['nu'], c['bu']
+    if nu == bu:
+        bu = {'Cel': 'K', 'K': 'degF', 'degF': 'Cel'}[nu]
+    tk, bk = c['tk'], c['tk'] - c['delta']          # node temperature and bound, in K
+    V, B = fromK[nu](tk), fromK[bu](bk)
+    form = c['form']
+    classes = ['edge:constraint-in-an-offset-or-logarithmic-unit', 'edge:offset-constraint:' + form]
+    if form == 'condition':
+        ok = (tk > bk) if c['op'] == '>' else (tk < bk)
+        L = ['temp float = %r %s' % (V, nu), '  !condition ("{?} %s %r %s")' % (c['op'], B, bu)]
+    elif form == 'condition-range':
+        lo, hi = fromK[bu](min(tk, bk) - 1 if c['delta'] > 0 else bk + 1), fromK[bu](max(tk, bk) + 1 if c['delta'] > 0 else bk + 30)
+        ok = (fromK['K'](tk) > (min(tk, bk) - 1 if c['delta'] > 0 else bk + 1)) and (tk < (max(tk, bk) + 1 if c['delta'] > 0 else bk + 30))
+        L = ['temp float = %r %s' % (V, nu), '  !condition ("%r %s < {?} && {?} < %r %s")' % (lo, bu, hi, bu)]
+    elif form == 'option-float':
+        ok = abs(c['delta']) > 10           # the first option is the node's own temperature written in bu (member) or 5 K away (no member)
+        opt = fromK[bu](tk if ok else tk + 5)
+        L = ['temp float = %r %s' % (V, nu), '  !options [%r,%r] %s' % (opt, fromK[bu](tk + 80), bu)]
+    elif form == 'option-int':
+        ok = c['delta'] > 0
+        L = ['th int = %d Cel' % (20 if ok else 21), '  = 68 degF', '  = 25 Cel']
+    else:
+        ok = (c['op'] == '>') == (c['delta'] > 0)
+        L = ['lv float = 30 dBm', '  !condition ("{?} %s %s W")' % (c['op'], '0.5' if c['delta'] > 0 else '2')]      # 30 dBm = 1 W
+    if c['modified'] and form in ('condition', 'condition-range'):
+        # the definition satisfies nothing in particular; the LAST value (written in the bound's unit) is the one judged
+        L = ['temp float = %r %s' % (fromK[nu](bk + (1 if c['op'] == '>' else -1) * 1000 if form == 'condition' else tk), nu)] + L[1:] + ['temp = %r %s' % (fromK[bu](tk), bu)]
+        classes.append('edge:offset-constraint:value-assigned-in-the-bounds-unit')
+    text = '\n'.join(L) + '\n'
+    devs = []
+    st, res, keep = parse(ctx, text, 'e16t')
+    if ok and st != 'ok':
+        devs.append(dev('wrongly-rejected:constraint-in-another-offset-unit(%s)' % form, dict(text=text, exc=repr(res)[:200])))
+    if not ok and st == 'ok':
+        devs.append(dev('wrongly-accepted:constraint-in-another-offset-unit(%s)' % form, dict(text=text, data=repr(res.data())[:160])))
+    return outcome(classes=classes, nontrivial=True, fp='e16t ' + text, dev=devs, monitors={'edge_programs': 1},
+                   sample=dict(text=text, expected='accepted' if ok else 'rejected'))
